@@ -6,6 +6,7 @@
 #include "horacle.h"
 #include <nano/solver.h>
 #include <nano/solver/lsearch.h>
+#include <solver/quasi.h>
 using namespace nano;
 using namespace h;
 
@@ -13,26 +14,36 @@ namespace
 {
 int                              g_moves   = 0;
 int                              g_lsevals = 1;
+int                              g_prex    = 0;  // number of leading line-search moves that go to concrete points (direction units)
+const double                     g_pre_moves[4][2] = {{1.0, 0.5}, {1.5, 1.25}, {2.75, 1.5}, {3.0, 2.5}};
+const double                     g_pre_grads[5][2] = {{-2.0, -1.0}, {-1.0, -1.5}, {-0.5, 0.25}, {0.25, -0.125}, {0.125, 0.0625}};
 std::vector<std::vector<double>> g_descents; // descent directions handed to the line-search
 std::vector<std::vector<double>> g_from;     // x of the state when the line-search was called
+std::vector<std::vector<double>> g_grads;    // gradient of the state when the line-search was called
 } // namespace
 
 #ifndef REAL_LSEARCH
 bool lsearch_t::get(solver_state_t& state, const vector_t& descent, const logger_t&) const
 {
-    std::vector<double> dd, xx;
+    std::vector<double> dd, xx, gg;
     for (tensor_size_t i = 0; i < descent.size(); ++i)
     {
         dd.push_back(descent(i));
         xx.push_back(state.x()(i));
+        gg.push_back(state.gx()(i));
     }
     g_descents.push_back(dd);
     g_from.push_back(xx);
+    g_grads.push_back(gg);
     bool valid = true;
     for (int e = 0; e < g_lsevals; ++e)
     {
         vector_t y(state.x().size());
-        for (tensor_size_t i = 0; i < y.size(); ++i) y(i) = sym_real(sym_nm("y", g_moves, i));
+        for (tensor_size_t i = 0; i < y.size(); ++i)
+        {
+            y(i) = sym_real(sym_nm("y", g_moves, i));
+            if (g_moves < g_prex && g_moves < 4 && i < 2) sym_assume_cmp(y(i), SYM_EQ, g_pre_moves[g_moves][i]); // pinned symbol: exact arithmetic
+        }
         ++g_moves;
         valid = state.update(y);
     }
@@ -46,6 +57,7 @@ extern "C" void sym_body()
     g_moves = 0;
     g_descents.clear();
     g_from.clear();
+    g_grads.clear();
     const std::string   id    = cfg("solver", "gd");
     const tensor_size_t n     = cfgi("d", 1);
     const long          evals = cfgi("evals", 10);
@@ -60,10 +72,21 @@ extern "C" void sym_body()
     solver->parameter("solver::max_evals") = evals;
     if (cfgi("hist", 0) > 0 && id == "lbfgs") solver->parameter("solver::lbfgs::history") = cfgi("hist", 0);
     // bundle solvers: bundle::max_size = 2 keeps the multiplier update in its analytic branch (no inner QP on symbolic data)
+    if (cfgi("qinit", 0)) solver->parameter("solver::quasi::initialization") = quasi_initialization::scaled;
     if (cfgi("bsize", 0) > 0) solver->parameter("solver::" + id + "::bundle::max_size") = cfgi("bsize", 0);
 
-    const vector_t x0    = sym_vector("x", n);
-    const auto     state = solver->minimize(f, x0, make_null_logger());
+    // direction units: prex leading moves / preg leading gradient answers are concrete (d = 2), so that the deeper iterations -
+    // several curvature pairs in the history - stay within reach of the solver; the remaining answers are symbolic
+    g_prex = static_cast<int>(cfgi("prex", 0));
+    for (long k = 0; k < cfgi("preg", 0) && k < 5 && n == 2; ++k)
+    {
+        f.pre_f.push_back(10.0 - static_cast<double>(k));
+        f.pre_g.push_back({g_pre_grads[k][0], g_pre_grads[k][1]});
+    }
+    const vector_t x0 = sym_vector("x", n);
+    if (g_prex > 0)
+        for (tensor_size_t i = 0; i < n; ++i) sym_assume_cmp(x0(i), SYM_EQ, 0.0);
+    const auto state = solver->minimize(f, x0, make_null_logger());
 
     const auto st = state.status();
     SYM_CHECK(st == solver_status::converged || st == solver_status::max_iters || st == solver_status::failed, "status is one of converged/max_iters/failed");
@@ -101,5 +124,190 @@ extern "C" void sym_body()
     if (st != solver_status::failed)
     {
         SYM_CHECK(f.fs[ku] == f.fs[ku] && f.fs[ku] != std::numeric_limits<double>::infinity(), "non-failed status: returned value is finite");
+    }
+
+    // ---- search directions (dir=1): the directions handed to the line-search equal their textbook definitions, for ANY sequence of
+    // iterates and gradients (the line-search moves arbitrarily, the gradients are the oracle's answers):
+    //   lbfgs : two-loop recursion == -H_k g_k with H_k the explicit BFGS matrix built from the kept (s, y) pairs on gamma*I
+    //   bfgs / dfp : -H_k g_k with H_k updated by the explicit update formula from the identity
+    // including the restart rules (not a descent direction => steepest descent, history / matrix reset).
+    if (cfgi("dir", 0) && (id == "lbfgs" || id == "bfgs" || id == "dfp" || id == "hoshino"))
+    {
+        using mat = std::vector<std::vector<double>>;
+        const auto N     = static_cast<size_t>(n);
+        auto       ident = [&](double v)
+        {
+            mat m(N, std::vector<double>(N, 0.0));
+            for (size_t i = 0; i < N; ++i) m[i][i] = v;
+            return m;
+        };
+        auto dot = [&](const std::vector<double>& a, const std::vector<double>& b)
+        {
+            double r = 0.0;
+            for (size_t i = 0; i < N; ++i) r = r + a[i] * b[i];
+            return r;
+        };
+        auto mulv = [&](const mat& m, const std::vector<double>& v)
+        {
+            std::vector<double> r(N, 0.0);
+            for (size_t i = 0; i < N; ++i)
+                for (size_t j = 0; j < N; ++j) r[i] = r[i] + m[i][j] * v[j];
+            return r;
+        };
+        auto bfgs = [&](const mat& H, const std::vector<double>& sv, const std::vector<double>& yv)
+        {
+            const double rho = 1.0 / dot(sv, yv);
+            mat          A(N, std::vector<double>(N, 0.0)), R(N, std::vector<double>(N, 0.0)), T(N, std::vector<double>(N, 0.0));
+            for (size_t i = 0; i < N; ++i)
+                for (size_t j = 0; j < N; ++j) A[i][j] = (i == j ? 1.0 : 0.0) - rho * sv[i] * yv[j];
+            for (size_t i = 0; i < N; ++i)
+                for (size_t j = 0; j < N; ++j)
+                    for (size_t k = 0; k < N; ++k) T[i][j] = T[i][j] + A[i][k] * H[k][j];
+            for (size_t i = 0; i < N; ++i)
+                for (size_t j = 0; j < N; ++j)
+                {
+                    for (size_t k = 0; k < N; ++k) R[i][j] = R[i][j] + T[i][k] * A[j][k];
+                    R[i][j] = R[i][j] + rho * sv[i] * sv[j];
+                }
+            return R;
+        };
+        auto dfp = [&](const mat& H, const std::vector<double>& sv, const std::vector<double>& yv)
+        {
+            const auto   Hy  = mulv(H, yv);
+            const double sy = dot(sv, yv), yHy = dot(yv, Hy);
+            mat          R = H;
+            for (size_t i = 0; i < N; ++i)
+                for (size_t j = 0; j < N; ++j) R[i][j] = R[i][j] + sv[i] * sv[j] / sy - Hy[i] * Hy[j] / yHy;
+            return R;
+        };
+        const size_t                      hist = static_cast<size_t>(cfgi("hist", 0) > 0 ? cfgi("hist", 0) : 20);
+        std::vector<std::vector<double>> ss, ys;
+        mat                              H = ident(1.0);
+        for (size_t k = 0; k < g_descents.size(); ++k)
+        {
+            const auto& g = g_grads[k];
+            // reference direction
+            std::vector<double> d(N, 0.0);
+            if (id == "lbfgs")
+            {
+                mat Hk = ident(1.0);
+                if (!ss.empty())
+                {
+                    Hk = ident(dot(ss.back(), ys.back()) / dot(ys.back(), ys.back()));
+                    for (size_t j = 0; j < ss.size(); ++j) Hk = bfgs(Hk, ss[j], ys[j]);
+                }
+                d = mulv(Hk, g);
+            }
+            else d = mulv(H, g);
+            for (size_t i = 0; i < N; ++i) d[i] = -d[i];
+            const bool descent_ok = dot(d, g) < 0.0;
+            if (!descent_ok)
+            {
+                for (size_t i = 0; i < N; ++i) d[i] = -g[i];
+                H = ident(1.0);
+            }
+            for (size_t i = 0; i < N; ++i) SYM_EQ_(g_descents[k][i], d[i], "search direction = -H_k g_k with H_k by the explicit update formulas (steepest descent + reset when not a descent direction)");
+            if (k + 1 >= g_descents.size()) break;
+            // the pair produced by this iteration (the next line-search starts from the accepted point)
+            std::vector<double> sv(N), yv(N);
+            for (size_t i = 0; i < N; ++i)
+            {
+                sv[i] = g_from[k + 1][i] - g_from[k][i];
+                yv[i] = g_grads[k + 1][i] - g_grads[k][i];
+            }
+            if (id == "lbfgs")
+            {
+                if (descent_ok)
+                {
+                    ss.push_back(sv);
+                    ys.push_back(yv);
+                    if (ss.size() > hist)
+                    {
+                        ss.erase(ss.begin());
+                        ys.erase(ys.begin());
+                    }
+                }
+                else
+                {
+                    ss.clear();
+                    ys.clear();
+                }
+            }
+            else
+            {
+                // solver::quasi::initialization = scaled: the first update starts from (s.y / y.y) I
+                if (k == 0 && cfgi("qinit", 0)) H = ident(dot(sv, yv) / dot(yv, yv));
+                if (id == "bfgs") H = bfgs(H, sv, yv);
+                else if (id == "dfp") H = dfp(H, sv, yv);
+                else
+                {
+                    // Hoshino: (1 - phi) DFP + phi BFGS with phi = s.y / (s.y + y.H.y)
+                    const double phi = dot(sv, yv) / (dot(sv, yv) + dot(yv, mulv(H, yv)));
+                    const auto   D = dfp(H, sv, yv), B = bfgs(H, sv, yv);
+                    for (size_t i = 0; i < N; ++i)
+                        for (size_t j = 0; j < N; ++j) H[i][j] = (1.0 - phi) * D[i][j] + phi * B[i][j];
+                }
+            }
+        }
+    }
+
+    // ---- conjugate-gradient directions (dir=1): d_0 = -g_0, d_k = -g_k + beta_k d_{k-1} with the documented beta of the variant,
+    // restarted to -g_k when d_k is not a descent direction or |g_k.g_{k-1}| >= orthotest * g_k.g_k
+    if (cfgi("dir", 0) && id.rfind("cgd-", 0) == 0 && id != "cgd-n")
+    {
+        const auto N   = static_cast<size_t>(n);
+        auto       dot = [&](const std::vector<double>& a, const std::vector<double>& b)
+        {
+            double r = 0.0;
+            for (size_t i = 0; i < N; ++i) r = r + a[i] * b[i];
+            return r;
+        };
+        auto sub = [&](const std::vector<double>& a, const std::vector<double>& b)
+        {
+            std::vector<double> r(N);
+            for (size_t i = 0; i < N; ++i) r[i] = a[i] - b[i];
+            return r;
+        };
+        const double        orthotest = solver->parameter("solver::cgd::orthotest").value<scalar_t>();
+        std::vector<double> pd;
+        for (size_t k = 0; k < g_descents.size(); ++k)
+        {
+            const auto&         g = g_grads[k];
+            std::vector<double> d(N);
+            for (size_t i = 0; i < N; ++i) d[i] = -g[i];
+            if (k > 0)
+            {
+                const auto&  pg = g_grads[k - 1];
+                const auto   y  = sub(g, pg);
+                const double hs = dot(g, y) / dot(pd, y), fr = dot(g, g) / dot(pg, pg), pr = dot(g, y) / dot(pg, pg);
+                const double cd = -dot(g, g) / dot(pd, pg), ls = -dot(g, y) / dot(pd, pg), dy = dot(g, g) / dot(pd, y);
+                double       beta = 0.0;
+                auto plus = [](double v) { return v > 0.0 ? v : 0.0; }; // HS+, PR+, LS+ (documented variants)
+                if (id == "cgd-hs") beta = plus(hs);
+                else if (id == "cgd-fr") beta = fr;
+                else if (id == "cgd-pr") beta = plus(pr);
+                else if (id == "cgd-cd") beta = cd;
+                else if (id == "cgd-ls") beta = plus(ls);
+                else if (id == "cgd-dy") beta = dy;
+                else if (id == "cgd-dyhs")
+                {
+                    const double m = dy < hs ? dy : hs;
+                    beta           = m > 0.0 ? m : 0.0;
+                }
+                else if (id == "cgd-dycd")
+                {
+                    const double a = dot(pd, y), b = -dot(pd, pg);
+                    beta           = dot(g, g) / (a < b ? b : a);
+                }
+                else // cgd-frpr
+                    beta = pr < -fr ? -fr : ((pr < 0.0 ? -pr : pr) <= fr ? pr : fr);
+                std::vector<double> c(N);
+                for (size_t i = 0; i < N; ++i) c[i] = -g[i] + beta * pd[i];
+                const double gp = dot(g, pg);
+                if (dot(c, g) < 0.0 && !((gp < 0.0 ? -gp : gp) >= orthotest * dot(g, g))) d = c;
+            }
+            for (size_t i = 0; i < N; ++i) SYM_EQ_(g_descents[k][i], d[i], "CG direction = -g_k + beta_k d_{k-1} with the variant's beta (restart to -g_k when not descent / orthogonality test fails)");
+            pd = d;
+        }
     }
 }
